@@ -85,7 +85,8 @@ def gen_module(rng, tier="quick"):
             e = expr(rng.randint(0, 5), leaves)
             stmts.append(["assign", [[n, e]]])
         else:
-            g = rng.choice(vu.PRIMS)
+            prev = [x[1] for x in stmts if x[0] == "inst"]
+            g = rng.choice(prev) if prev and rng.random() < 0.45 else rng.choice(vu.PRIMS)
             ar = 1 if g in ("buf", "not") else rng.choice([1, 2, 2, 2, 3, 4])
             ops = []
             for _ in range(ar):
@@ -145,6 +146,10 @@ def gen_module(rng, tier="quick"):
     # merge statements: several assigns in one list, several instances of one primitive in one statement
     merged = []
     for s in stmts:
+        same = [t for t in merged if t[0] == "inst" and s[0] == "inst" and t[1] == s[1]]
+        if same and rng.random() < 0.6:
+            rng.choice(same)[2].extend(s[2])
+            continue
         if merged and rng.random() < 0.3:
             t = rng.choice(merged)
             if t[0] == "assign" and s[0] == "assign":
